@@ -1950,6 +1950,8 @@ def m_sort_by(ex, st, fr, path, args, m):
 @model(r"^(?:core::char::methods::<impl char>|char::methods::<impl char>|char)::(is_alphanumeric|is_lowercase|is_uppercase|is_alphabetic|is_numeric|is_ascii_digit|is_ascii_hexdigit|is_whitespace)$")
 def m_char_class(ex, st, fr, path, args, m):
     c = args[0]
+    if isinstance(c, Ref):      # is_ascii_* take &self
+        c = deref_val(c)
     op = m.group(1)
     if not ex.decide(st, binop("Lt", c, I("char", 128))):
         raise Unsupported("char classification of non-ASCII characters (Unicode tables are not modelled)")
